@@ -408,7 +408,8 @@ def _w_entry(name):
                         evs[key] = [0, {"span": e.get("span"), "stack": [_short(x) for x in e.get("stack", [])][-4:], "path": describe_path(eng, st, 10)}]
                     evs[key][0] += 1
         inv = hv.surviving()
-        stats = {"paths": len(finals), "ends": ends, "houdini_rounds": rounds, "engine": dict(eng.stats),
+        from ..sym import COVERED
+        stats = {"paths": len(finals), "ends": ends, "houdini_rounds": rounds, "engine": dict(eng.stats), "_covered": sorted(COVERED),
                  "loops": {"%s@bb%d" % (_short(k[0]), k[1]): dict(v, invariants=len(inv.get(k, []))) for k, v in hv.loops_seen.items()}}
         return (name, stats, [(list(k), v[0], v[1]) for k, v in evs.items()], None)
     except Exception:
@@ -436,6 +437,7 @@ def run(chk, F, tier):
     with Pool(min(len(names), os.cpu_count() or 4), initializer=_w_init, initargs=(F.path,)) as pool:
         results = pool.map(_w_entry, names, chunksize=1)
     for name, st_, evs, err in results:
+        chk.extra.setdefault("_covered_in_workers", []).extend(st_.pop("_covered", []))
         stats[name] = st_
         if err:
             chk.error("entry %s: %s" % (name, err))
